@@ -4,6 +4,7 @@ go 1.21
 
 require (
 	go.brendoncarroll.net/p2p v0.0.0
+	go.uber.org/zap v1.24.0
 	golang.org/x/crypto v0.9.0
 )
 
@@ -20,7 +21,6 @@ require (
 	go.brendoncarroll.net/tai64 v0.0.0-20241118171318-6e12d283d5e4 // indirect
 	go.uber.org/atomic v1.7.0 // indirect
 	go.uber.org/multierr v1.6.0 // indirect
-	go.uber.org/zap v1.24.0 // indirect
 	golang.org/x/exp v0.0.0-20230522175609-2e198f4a06a1 // indirect
 	golang.org/x/net v0.10.0 // indirect
 	golang.org/x/sync v0.2.0 // indirect
